@@ -14,7 +14,7 @@ def main(argv):
     twice = True
     replay_same = True
     for i in range(args["n"]):
-        mode = modes[i % len(modes)]
+        mode = check.mode_for(i * 997, "quick") if hasattr(check, "mode_for") else modes[i % len(modes)]
         s = run_seed(args["seed"], args["prop"], args["variant"], i)
         r1 = execute(check, seed=s, mode=mode)
         r2 = execute(check, seed=s, mode=mode)
